@@ -26,8 +26,8 @@ ASSUMPTIONS = ["unwind edges excluded", "the kernel wakes F_SETLKW waiters when 
 PANICKY = re.compile(r"core::panicking::.*|core::option::Option::(unwrap|expect)|core::result::Result::(unwrap|expect)|core::option::unwrap_failed|core::result::unwrap_failed")
 
 
-def lock_typestate(ctx, rid, body, role, roots=None, entry=None, single=False, exit_required=None, pre=None):
-    ts = LockTS(ctx.prog, body, roots or [], entry_state=entry, preconds=pre, single_object=single)
+def lock_typestate(ctx, rid, body, role, roots=None, entry=None, single=False, exit_required=None, pre=None, exclude=()):
+    ts = LockTS(ctx.prog, body, roots or [], entry_state=entry, preconds=pre, single_object=single, exclude=exclude)
     n = 0
     calls = [(bb, det, st) for (bb, kind, st, det) in ts.events if kind == "call"]
     bad = {(bb, det[0]): (st, det[1]) for (bb, kind, st, det) in ts.events if kind == "precondition"}
@@ -82,6 +82,10 @@ def run(ctx):
         n += c
     table = [(r"@bin::log::LogState::catlog", "loglock", True), (r"@bin::log::is_locked", "probe", True),
              (r"state::LockManager::detect_broken_locks", "probe", False), (r"state::ProcessState::init", "init-lock", False)]
+    # a probe helper may be inlined into its caller (its body then no longer exists): the caller's table entry
+    # covers the probe lock as a lock object of its own (see `standalone` below); a missing entry whose lock
+    # calls are nowhere else is caught by the coverage instances
+    table = [(k, r_, s_) for (k, r_, s_) in table if prog.find(k) or k != r"@bin::log::is_locked"]
     for key, role, single in table:
         b = prog.one(key)
         bba = BA.of(b)
@@ -91,7 +95,24 @@ def run(ctx):
                 c, _ = lock_typestate(ctx, "R9.1", b, role + "-" + k, roots=[b.blocks[i]["term"]["dest"]["l"]], pre=pre)
                 n += c
         else:
-            c, _ = lock_typestate(ctx, "R9.1", b, role, single=True, pre=pre)
+            # lock values created here that never travel into a container (tuple / struct / Option) are objects
+            # of their own: each is analysed separately and kept out of the container lock's analysis
+            standalone = []
+            for i in news:
+                d = b.blocks[i]["term"]["dest"]
+                if d["p"] or b.locals[d["l"]] != LOCK:
+                    continue
+                ts0 = LockTS(prog, b, [d["l"]], preconds=pre)
+                moved = any(any(k_ in ("agg", "callarg") for k_, _ in ts0._escapes(blk)) for blk in b.blocks)
+                if not moved:
+                    standalone.append((i, d["l"], set(ts0.tracked)))
+            excl = set()
+            for _, _, tr in standalone:
+                excl |= tr
+            for k, (i, l, _) in common.ordinal_keys([("Lock::new", x) for x in standalone]):
+                c, _ = lock_typestate(ctx, "R9.1", b, "probe-" + k, roots=[l], pre=pre)
+                n += c
+            c, _ = lock_typestate(ctx, "R9.1", b, role, single=True, pre=pre, exclude=excl)
             n += c
     ctx.floor("R9.1", "Lock method call sites with an obligation", n, 12)
     # every body that calls an asserting Lock method was analysed
